@@ -193,10 +193,10 @@ func planClusterNonPushdown(opts *Opts, query *sql.Query) (core.FlatRowSource, e
 	sqlString := query.SQL
 	crosstabString := concatForCrosstab(sqlString)
 	lowerSQL := strings.ToLower(sqlString)
-	indexOfGroupBy := strings.Index(lowerSQL, "group by ")
-	indexOfHaving := strings.Index(lowerSQL, "having ")
-	indexOfOrderBy := strings.Index(lowerSQL, "order by ")
-	indexOfLimit := strings.Index(lowerSQL, "limit ")
+	indexOfGroupBy := topLevelIndex(lowerSQL, "group by ")
+	indexOfHaving := topLevelIndex(lowerSQL, "having ")
+	indexOfOrderBy := topLevelIndex(lowerSQL, "order by ")
+	indexOfLimit := topLevelIndex(lowerSQL, "limit ")
 	if indexOfGroupBy > 0 {
 		sqlString = sqlString[:indexOfGroupBy]
 	} else if indexOfHaving > 0 {
@@ -296,6 +296,35 @@ func planClusterNonPushdown(opts *Opts, query *sql.Query) (core.FlatRowSource, e
 	}
 
 	return addOrderLimitOffset(flat, query), nil
+}
+
+// topLevelIndex is like strings.Index but only finds substr outside of string
+// literals and parentheses, i.e. it doesn't mistake the words in
+// "where x = 'the group by clause'" or the clauses of a subquery for clauses of
+// the statement itself.
+func topLevelIndex(s string, substr string) int {
+	depth := 0
+	var quote byte
+	for i := 0; i < len(s); i++ {
+		c := s[i]
+		switch {
+		case quote != 0:
+			if c == '\\' {
+				i++
+			} else if c == quote {
+				quote = 0
+			}
+		case c == '\'' || c == '"' || c == '`':
+			quote = c
+		case c == '(':
+			depth++
+		case c == ')':
+			depth--
+		case depth == 0 && strings.HasPrefix(s[i:], substr):
+			return i
+		}
+	}
+	return -1
 }
 
 func planAsIfLocal(opts *Opts, sqlString string) (core.FlatRowSource, error) {
